@@ -184,13 +184,13 @@ def check(prop, tier, only):
                 tsan_state = "unavailable: ThreadSanitizer build failed: " + str(e)[-300:]
         else:
             tsan_state = "filtered out"
-    budget = 100 if tier == "quick" else 1000
+    budget = 150 if tier == "quick" else 1100  # one global deadline for all jobs of the run (exit 0, exhaustive:false when hit)
     argv_jobs = [(j["name"], [exes[j["cfg"] if j["h"] == H else ("ll", j["cfg"])]] + shlex.split(j["args"])
-                  + ["--tier", tier, "--time_s", str(budget)]) for j in jobs]
+                  + ["--tier", tier, "--time_s", str(budget), "--deadline", str(int(t0 + budget))]) for j in jobs]
     if tsan_exe:
         os.environ.setdefault("TSAN_OPTIONS", "exitcode=0")
         jobs.append(checks.J(H, "dbg", "--tsan", name="tsan-side-run[dbg]"))
-        argv_jobs.append(("tsan-side-run[dbg]", [tsan_exe, "--tsan", "--tier", tier]))
+        argv_jobs.append(("tsan-side-run[dbg]", [tsan_exe, "--tsan", "--tier", tier, "--deadline", str(int(t0 + budget))]))
     results = vlib.run_jobs(argv_jobs, timeout=budget + 300)
 
     states = trans = traces = 0
